@@ -47,10 +47,14 @@ type c15List struct {
 }
 
 type c15World struct {
-	mu      sync.Mutex
-	scripts map[string]c15Script // host -> next answer
-	srv     *httptest.Server
-	client  *http.Client
+	mu       sync.Mutex
+	scripts  map[string][]c15Script // URL -> answers, one per request (the last repeats)
+	reqs     map[string]int         // URL -> requests received during this operation
+	cond     map[string]int         // URL -> requests carrying If-Modified-Since during this operation
+	lastBody map[string]string      // URL -> the body the source serves now
+	lastMod  map[string]time.Time   // URL -> when that body appeared
+	srv      *httptest.Server
+	client   *http.Client
 
 	d       *DNSFilter
 	lists   []c15List
@@ -66,8 +70,29 @@ var (
 func (w *c15World) serve(rw http.ResponseWriter, r *http.Request) {
 	key := r.Host + r.URL.Path
 	w.mu.Lock()
-	sc, ok := w.scripts[key]
+	seq, ok := w.scripts[key]
+	var sc c15Script
+	if ok {
+		sc = seq[min(w.reqs[key], len(seq)-1)]
+		w.reqs[key]++
+	}
+	ims := r.Header.Get("If-Modified-Since")
+	lm, hasLM := w.lastMod[key]
+	if ims != "" {
+		w.cond[key]++
+	}
 	w.mu.Unlock()
+	if ok && ims != "" && hasLM && (sc.kind == "B" || sc.kind == "G") && sc.complete {
+		// what a real server does with a conditional request
+		if t, perr := http.ParseTime(ims); perr == nil && !lm.Truncate(time.Second).After(t) {
+			rw.WriteHeader(http.StatusNotModified)
+
+			return
+		}
+	}
+	if hasLM {
+		rw.Header().Set("Last-Modified", lm.UTC().Format(http.TimeFormat))
+	}
 	if !ok {
 		http.Error(rw, "no script", http.StatusTeapot)
 
@@ -133,10 +158,35 @@ func (w *c15World) serve(rw http.ResponseWriter, r *http.Request) {
 	}
 }
 
+// c15Attempts turns "pre1+pre2+…+final" into the answers to the successive
+// requests of ONE update: pre ∈ cut<hex> (announces more than it sends, then
+// drops the connection), reset, s500, s404; final = an ordinary kind answered
+// with (data, complete).
+func c15Attempts(kind, data string, complete bool) (seq []c15Script) {
+	parts := strings.Split(kind, "+")
+	for _, p := range parts[:len(parts)-1] {
+		switch {
+		case strings.HasPrefix(p, "cut"):
+			seq = append(seq, c15Script{kind: "B", data: vutil.Unhex(p[3:]), complete: false})
+		case p == "reset":
+			seq = append(seq, c15Script{kind: "F", data: "reset"})
+		case p == "s500":
+			seq = append(seq, c15Script{kind: "F", data: "500"})
+		case p == "s404":
+			seq = append(seq, c15Script{kind: "F", data: "404"})
+		default:
+			panic("harness: unknown attempt " + p)
+		}
+	}
+
+	return append(seq, c15Script{kind: parts[len(parts)-1], data: data, complete: complete})
+}
+
 func c15Setup() *c15World {
 	c15Once.Do(func() {
 		log.SetOutput(io.Discard)
-		w := &c15World{scripts: map[string]c15Script{}}
+		w := &c15World{scripts: map[string][]c15Script{}, reqs: map[string]int{}, cond: map[string]int{},
+			lastBody: map[string]string{}, lastMod: map[string]time.Time{}}
 		w.srv = httptest.NewServer(http.HandlerFunc(w.serve))
 		addr := w.srv.Listener.Addr().String()
 		w.client = &http.Client{
@@ -284,7 +334,9 @@ func (w *c15World) refresh(f []string) []string {
 	}
 	before := make([]os.FileInfo, n)
 	w.mu.Lock()
-	w.scripts = map[string]c15Script{}
+	w.scripts = map[string][]c15Script{}
+	w.reqs = map[string]int{}
+	w.cond = map[string]int{}
 	w.mu.Unlock()
 	now := time.Now()
 	for i := 0; i < n; i++ {
@@ -321,9 +373,13 @@ func (w *c15World) refresh(f []string) []string {
 		} else {
 			w.mu.Lock()
 			key := strings.TrimPrefix(fy.URL, "http://")
-			w.scripts[key] = c15Script{kind: kind, data: data, complete: complete}
+			w.scripts[key] = c15Attempts(kind, data, complete)
+			if data != w.lastBody[key] || w.lastMod[key].IsZero() {
+				// the source has a new version of the list
+				w.lastBody[key], w.lastMod[key] = data, time.Now()
+			}
 			if strings.HasPrefix(kind, "R") {
-				w.scripts[key+".r"] = c15Script{kind: "B", data: data, complete: complete}
+				w.scripts[key+".r"] = []c15Script{{kind: "B", data: data, complete: complete}}
 			}
 			w.mu.Unlock()
 		}
@@ -356,10 +412,16 @@ func (w *c15World) observe(before []os.FileInfo) (obs []string) {
 		// What a restart computes: the real DNSFilter.load on the stored file.
 		re := FilterYAML{Filter: Filter{ID: fy.ID}}
 		if lerr := w.d.load(&re); lerr != nil {
-			panic(fmt.Sprintf("load of the stored list %d failed: %v", i, lerr))
+			// a restart would come up with no rules for this list
+			re.RulesCount, re.checksum = 0, 0
 		}
+		w.mu.Lock()
+		nreq := w.reqs[strings.TrimPrefix(fy.URL, "http://")]
+		ncond := w.cond[strings.TrimPrefix(fy.URL, "http://")]
+		w.mu.Unlock()
 		obs = append(obs, strconv.Itoa(fy.RulesCount), strconv.FormatUint(uint64(fy.checksum), 10), file,
-			strconv.Itoa(w.mask(i)), vutil.B(rew), strconv.Itoa(re.RulesCount), strconv.FormatUint(uint64(re.checksum), 10))
+			strconv.Itoa(w.mask(i)), vutil.B(rew), strconv.Itoa(re.RulesCount), strconv.FormatUint(uint64(re.checksum), 10),
+			strconv.Itoa(nreq), strconv.Itoa(ncond))
 	}
 	// no stray pending files may be left behind
 	ents, _ := os.ReadDir(filepath.Join(w.dataDir, filterDir))
@@ -388,9 +450,11 @@ func (w *c15World) setURL(f []string) []string {
 	oldURL := w.flt(i).URL
 	newURL := c15HTTPURL(j, k)
 	w.mu.Lock()
-	w.scripts = map[string]c15Script{strings.TrimPrefix(newURL, "http://"): {kind: kind, data: data, complete: complete}}
+	w.scripts = map[string][]c15Script{strings.TrimPrefix(newURL, "http://"): c15Attempts(kind, data, complete)}
+	w.reqs = map[string]int{}
+	w.cond = map[string]int{}
 	if strings.HasPrefix(kind, "R") {
-		w.scripts[strings.TrimPrefix(newURL, "http://")+".r"] = c15Script{kind: "B", data: data, complete: complete}
+		w.scripts[strings.TrimPrefix(newURL, "http://")+".r"] = []c15Script{{kind: "B", data: data, complete: complete}}
 	}
 	w.mu.Unlock()
 
@@ -424,6 +488,10 @@ func (w *c15World) stats() []os.FileInfo {
 // engine rebuild.
 func (w *c15World) setRules() []string {
 	before := w.stats()
+	w.mu.Lock()
+	w.reqs = map[string]int{}
+	w.cond = map[string]int{}
+	w.mu.Unlock()
 	r := httptest.NewRequest(http.MethodPost, "http://agh.example/control/filtering/set_rules", strings.NewReader(`{"rules":[]}`))
 	r.Header.Set("Content-Type", "application/json")
 	rec := httptest.NewRecorder()
@@ -436,6 +504,10 @@ func (w *c15World) setRules() []string {
 func (w *c15World) remove(f []string) []string {
 	i := vutil.Atoi(f[0])
 	before := w.stats()
+	w.mu.Lock()
+	w.reqs = map[string]int{}
+	w.cond = map[string]int{}
+	w.mu.Unlock()
 	fy := w.flt(i)
 	if fy == nil {
 		panic("harness: list already removed")
@@ -459,6 +531,10 @@ func (w *c15World) remove(f []string) []string {
 // loop does what updatesLoop does with the tasks waiting in the channel.
 func (w *c15World) loop() []string {
 	before := w.stats()
+	w.mu.Lock()
+	w.reqs = map[string]int{}
+	w.cond = map[string]int{}
+	w.mu.Unlock()
 	for {
 		select {
 		case params := <-w.d.filtersInitializerChan:
@@ -500,7 +576,19 @@ func c15RunB(f []string) []string {
 func c15Content(r *rand.Rand, i int) string {
 	var b strings.Builder
 	n := r.IntN(5)
+	wrote := false
 	for j := 0; j < n; j++ {
+		if wrote && r.IntN(7) == 0 {
+			// an HTML opener AFTER the first rule is an ordinary rule line for the parser
+			b.WriteString(vutil.Pick(r, []string{"", " ", "\t"}) +
+				vutil.Pick(r, []string{"<html>", "<HTML lang=\"en\">", "<!DOCTYPE html>", "<!doctype html>", "<Html", "<!DocType"}) +
+				vutil.Pick(r, []string{"\n", "\r\n", "\n", ""}))
+			if !strings.HasSuffix(b.String(), "\n") {
+				b.WriteString("\n")
+			}
+
+			continue
+		}
 		switch r.IntN(12) {
 		case 0:
 			b.WriteString("# comment\n")
@@ -515,6 +603,7 @@ func c15Content(r *rand.Rand, i int) string {
 			b.WriteString(vutil.Pick(r, []string{"[Adblock Plus 2.0]\n", "! Title: T\n[Adblock Plus 2.0]\n", "[Adblock Plus 2.0]\n! Title: T\n", "[uBlock Origin]\n"}))
 		default:
 			k := r.IntN(4)
+			wrote = true
 			rule := fmt.Sprintf("||w%d.l%d.example^", k, i)
 			b.WriteString(vutil.Pick(r, []string{"", "", " ", "\t", "\xc2\xa0"}) + rule + vutil.Pick(r, []string{"", "", " ", "\r", "\xe2\x80\x80"}))
 			if j == n-1 && r.IntN(4) == 0 {
@@ -564,6 +653,10 @@ func c15GenB(r *rand.Rand, emit vutil.Emit) {
 			op("B", first, true)
 			for k := 0; k <= len(second); k++ {
 				op(vutil.Pick(r, []string{"B", "B", "G"}), second[:k], false)
+			}
+			// the same cuts, each immediately followed by a complete answer to a second request
+			for k := 0; k < len(second); k++ {
+				op("cut"+vutil.Hex(second[:k])+"+B", second, true)
 			}
 			op("B", second, true)
 
@@ -720,11 +813,20 @@ func c15GenB(r *rand.Rand, emit vutil.Emit) {
 					}
 					data, complete = body, true
 				}
-				if !l.local && kind == "B" && r.IntN(10) == 0 {
+				if !l.local && kind == "B" && r.IntN(6) == 0 {
+					// the source answers the FIRST request of this update differently from later ones
+					other := c15Content(r, i) + "||w3.l" + strconv.Itoa(i) + ".example^\n"
+					pre := vutil.Pick(r, []string{"cut" + vutil.Hex(other[:r.IntN(len(other))]), "reset", "s500", "s404",
+						"cut" + vutil.Hex(other[:r.IntN(len(other))]) + "+cut" + vutil.Hex(other[:r.IntN(len(other))])})
+					kind = pre + "+B"
+				} else if !l.local && kind == "B" && r.IntN(10) == 0 {
 					kind = "G" // the same body, gzip-coded (cut inside the stream when !complete)
 				}
 				if (kind == "B" || kind == "G" || kind[0] == 'R') && complete {
 					prev[i] = data
+				}
+				if strings.Contains(kind, "+") {
+					prev[i] = prev[i] // the first answer decides: nothing stored
 				}
 				op = append(op, vutil.B(due), kind, vutil.Hex(data), vutil.B(complete))
 			}
